@@ -59,6 +59,9 @@ def one(e, base):
     elif e.get('generator') == 'else-after-exit':
         from else_after_exit import main as elseexit
         elseexit(d)
+    elif e.get('generator') == 'demorgan':
+        from demorgan import main as demorgan
+        demorgan(d)
     elif e.get('generator') == 'insert-noops':
         from insert_noops import main as noops
         noops(d)
